@@ -106,7 +106,7 @@ func genOp(t *rapid.T, client, seq int) kit.Cmd {
 		}
 	case "h":
 		f := gen.Pick(t, "field", "f", "g")
-		switch gen.Weighted(t, "hop", []int{4, 3, 3, 5, 2, 1}) {
+		switch gen.Weighted(t, "hop", []int{4, 3, 3, 5, 2, 1, 4}) {
 		case 0:
 			return kit.MkCmd("HSET", k, f, gen.Pick(t, "hv", "1", "7"))
 		case 1:
@@ -117,8 +117,10 @@ func genOp(t *rapid.T, client, seq int) kit.Cmd {
 			return kit.MkCmd("HINCRBY", k, f, "1")
 		case 4:
 			return kit.MkCmd("HLEN", k)
-		default:
+		case 5:
 			return kit.MkCmd("HGETALL", k)
+		default:
+			return kit.MkCmd("HSETNX", k, f, uniq) // exactly one concurrent claimant may win
 		}
 	default:
 		m := gen.Pick(t, "zm", "a", "b", "c", "d")
